@@ -91,6 +91,9 @@ class _Expr(ast.NodeTransformer):
 
     def visit_IfExp(self, node):
         self.generic_visit(node)
+        # A if not C else B  ->  B if C else A
+        if isinstance(node.test, ast.UnaryOp) and isinstance(node.test.op, ast.Not):
+            node = ast.copy_location(ast.IfExp(test=node.test.operand, body=node.orelse, orelse=node.body), node)
         # A if C else False  ==  C and A ;  True if C else B  ==  C or B      (C boolean in the repository's uses)
         if isinstance(node.orelse, ast.Constant) and node.orelse.value is False:
             return ast.copy_location(ast.BoolOp(op=ast.And(), values=[node.test, node.body]), node)
@@ -341,6 +344,15 @@ class _Stmt(ast.NodeTransformer):
             if isinstance(s, ast.Assign) and len(s.targets) == 1 and isinstance(s.targets[0], ast.Name) and isinstance(s.value, ast.BinOp) and isinstance(s.value.op, ast.Add) \
                     and isinstance(s.value.left, ast.Name) and s.value.left.id == s.targets[0].id and _uses(s.targets[0].id, [s.value.right]) == 0:
                 out.append(ast.copy_location(ast.AugAssign(target=ast.Name(id=s.targets[0].id, ctx=ast.Store()), op=ast.Add(), value=s.value.right), s))
+                i += 1
+                continue
+            # D[K] = D.get(K, X)   ->   D.setdefault(K, X)
+            if isinstance(s, ast.Assign) and len(s.targets) == 1 and isinstance(s.targets[0], ast.Subscript) and isinstance(s.value, ast.Call) \
+                    and isinstance(s.value.func, ast.Attribute) and s.value.func.attr == "get" and len(s.value.args) == 2 and not s.value.keywords \
+                    and ast.dump(s.value.func.value) == ast.dump(s.targets[0].value).replace("Store()", "Load()") \
+                    and ast.dump(s.value.args[0]) == ast.dump(s.targets[0].slice):
+                call = ast.Call(func=ast.Attribute(value=s.value.func.value, attr="setdefault", ctx=ast.Load()), args=list(s.value.args), keywords=[])
+                out.append(ast.copy_location(ast.Expr(value=ast.copy_location(call, s)), s))
                 i += 1
                 continue
             # x = f"{x}rest"  ->  x += f"rest"     (string building already folded into one f-string)
